@@ -366,7 +366,11 @@ var (
 	textHeader  = regexp.MustCompile(`^\[([A-Z]+)\]\[(\d{4}-\d{2}-\d{2}T\d{2}:\d{2}:\d{2}\.\d{3})\]\[([^\]]*)\] ([a-z0-9_]+)\|\|`)
 )
 
-func encEvent(c layoutCase) (*log.Event, []string, []rv, []bool) {
+// encEvent builds the event of a case. With context fields it also returns a "parent" event that is
+// formatted first: its context fields are a shorter prefix of the SAME backing array (a child context
+// built as append(parentFields, extra)), so that a layout that writes into the spare capacity of the
+// slices it is given corrupts the event under test.
+func encEvent(c layoutCase) (*log.Event, []string, []rv, *log.Event) {
 	e := &log.Event{Level: log.WarnLevel, Time: encTime, File: "dir/file.go", Line: 42, Tag: "_enc_tag"}
 	var keys []string
 	var vals []rv
@@ -374,7 +378,9 @@ func encEvent(c layoutCase) (*log.Event, []string, []rv, []bool) {
 		e.CtxString = "ctx-7f"
 	}
 	if c.Ctx&2 != 0 {
-		e.CtxFields = []log.Field{log.String("trace", "t\"1"), log.Int("span", 9)}
+		backing := make([]log.Field, 2, 8)
+		backing[0], backing[1] = log.String("trace", "t\"1"), log.Int("span", 9)
+		e.CtxFields = backing[:2]
 		keys = append(keys, "trace", "span")
 		vals = append(vals, str("t\"1"), num("9"))
 	}
@@ -384,7 +390,13 @@ func encEvent(c layoutCase) (*log.Event, []string, []rv, []bool) {
 		keys = append(keys, fc.keys...)
 		vals = append(vals, fc.vals...)
 	}
-	return e, keys, vals, nil
+	var parent *log.Event
+	if c.Ctx&2 != 0 {
+		p := *e
+		p.CtxFields = e.CtxFields[:1]
+		parent = &p
+	}
+	return e, keys, vals, parent
 }
 
 func encCheck(prop string) func(c layoutCase) (string, []Violation, int) {
@@ -405,11 +417,15 @@ func encCheck(prop string) func(c layoutCase) (string, []Violation, int) {
 				v = append(v, Violation{Clause: clause, Key: key, Detail: detail})
 			}
 		}
-		e, keys, vals, _ := encEvent(c)
+		e, keys, vals, parent := encEvent(c)
 		var jline, tline []byte
 		var pn any
 		func() {
 			defer func() { pn = recover() }()
+			if parent != nil {
+				jl.ToBytes(parent)
+				tl.ToBytes(parent)
+			}
 			jline = jl.ToBytes(e)
 			tline = tl.ToBytes(e)
 		}()
